@@ -50,6 +50,7 @@ func (r *ObRun) setup() *Ctx {
 	c.feasAfter = atoiDef(r.attr("feas", ""), 0)
 	c.maxInstr = int64(atoiDef(r.attr("maxinstr", ""), 0))
 	c.cutFix = r.attr("cutfix", "")
+	c.guardType = r.attr("guarded", "")
 	c.trace = verbose
 	if ap := r.attr("allowpanic", ""); ap != "" {
 		c.allowPanic = regexp.MustCompile(ap)
@@ -146,6 +147,21 @@ func (r *ObRun) execute() (c *Ctx) {
 		mem[k] = v
 	}
 	st := &State{mem: mem, ghost: map[string]Value{}}
+	if r.attr("sharedro", "") != "" {
+		st.shared = &sharedWatch{max: r.Ld.baseObjN, hits: map[string]bool{}}
+		defer func() {
+			var names []string
+			for n := range st.shared.hits {
+				names = append(names, n)
+			}
+			sort.Strings(names)
+			for _, n := range names {
+				c.obs = append(c.obs, &Oblig{Name: "shared state: no store to package-level object " + shortName(n) + " after initialisation", Kind: "lock", Hyp: TrueT, Goal: FalseT})
+			}
+			c.obs = append(c.obs, &Oblig{Name: "shared state: stores of this call go to caller-owned or fresh objects only (checked on every explored path)", Kind: "lock", Hyp: TrueT, Goal: TrueT})
+			r.Obs = c.obs
+		}()
+	}
 	if c.cutSpec = parseLoopCut(r); c.cutSpec != nil {
 		c.runLoopCut(fn, st)
 		r.Obs = c.obs
